@@ -661,4 +661,79 @@ class AfterFailures(object):
         return repr(sorted((k, str(v)) for k, v in res.items())), vs, 2
 
 
-FAMILIES = [Shapes(), Spellings(), Kinds(), SameNames(), ArcZero(), TableOrders(), ArcValues(), NoDepsChains(), AfterFailures()]
+class FileEdges(object):
+    name = 'J-file-edges'
+    describe = ('ONE parser object reads a chain of two (quick) or three (thorough) modules importing each other\'s nodes; every text '
+                'independently begins with nothing / a blank line / a comment line / spaces and ends in a line end / nothing / a comment '
+                'without line end / an unclosed "--" / a comment line without line end / a form feed; both request orders, both back '
+                'ends: what one file ends in has no say in how the next one is read')
+
+    BEGIN = ['', '\n', '-- header\n', '  ', '--\n']
+    END = ['\n', '', ' -- of the module', ' --', '\n-- the end', '\n\n  ', ' -- a -- b']
+
+    def blocks(self, tier):
+        n = 3 if tier == 'thorough' else 2
+        return [{'n': n, 'first': [b, e]} for b in range(len(self.BEGIN)) for e in range(len(self.END))]
+
+    def cases(self, block, tier):
+        n = block['n']
+        alphabet = list(itertools.product(range(len(self.BEGIN)), range(len(self.END))))
+        for rest in itertools.product(alphabet, repeat=n - 1):
+            for order in ((0, 1) if n == 2 else (0, 1, 2, 3)):
+                for backend in ('json', 'pysnmp'):
+                    yield {'edges': [block['first']] + [list(x) for x in rest], 'order': order, 'backend': backend}
+
+    def run_case(self, case):
+        names = ['EA-MIB', 'EB-MIB', 'EC-MIB'][:len(case['edges'])]
+        texts, want = env.base_texts(), {}
+        for i, name in enumerate(names):
+            if i + 1 < len(names):
+                imp = 'IMPORTS e%dBranch FROM %s;' % (i + 1, names[i + 1])
+                parent = 'e%dBranch' % (i + 1)
+            else:
+                imp = 'IMPORTS enterprises FROM SNMPv2-SMI;'
+                parent = 'enterprises'
+            body = ('%s DEFINITIONS ::= BEGIN\n%s\ne%dLeaf OBJECT IDENTIFIER ::= { e%dBranch 1 }\n'
+                    'e%dBranch OBJECT IDENTIFIER ::= { %s %d }\nEND' % (name, imp, i, i, i, parent, 70 + i))
+            b, e = case['edges'][i]
+            texts[name] = self.BEGIN[b] + body + self.END[e]
+        oid = (1, 3, 6, 1, 4, 1)
+        for i in reversed(range(len(names))):
+            oid = oid + (70 + i,)
+            want[names[i]] = set([dotted(oid), dotted(oid + (1,))])
+        orders = [names, names[::-1], names[:1], [names[-1], names[0]]]
+        request = orders[case['order']]
+        w = env.CaptureWriter()
+        parser = env.shared_parser('smiV2')
+        parser.reset()
+        comp = env.MibCompiler(parser, env.make_codegen(case['backend']), w)
+        comp.addSources(env.DictReader(texts, tag='only'))
+        comp.addSearchers(env.StubSearcher(*env.BASE_NAMES))
+        sig = 'C01|J|begin=%s|end=%s' % (','.join(sorted(set(repr(self.BEGIN[b]) for b, e in case['edges']))),
+                                       ','.join(sorted(set(repr(self.END[e]) for b, e in case['edges']))))
+        try:
+            res = comp.compile(*request)
+        except Exception as exc:
+            return 'escaped', [('%s|exception-escapes-compile|%s' % (sig, type(exc).__name__), repr(exc)[:300])], 1
+        vs = []
+        for n in names:
+            if res.get(n) != 'compiled':
+                vs.append(('%s|valid-module-%s' % (sig, res.get(n)), '%s: %r %r\nrequest %r\ntexts %r' % (
+                    n, res.get(n), getattr(res.get(n), 'error', None), request, dict((k, texts[k]) for k in names))))
+            elif set(getattr(res[n], 'oids', ()) or ()) != want[n]:
+                vs.append(('%s|status.oids-differ' % sig, '%s: %r, declared %r' % (n, sorted(res[n].oids), sorted(want[n]))))
+        return repr(sorted((k, str(v)) for k, v in res.items())), vs, 1
+
+
+def _parents_from_the_old_base_modules():
+    from mc.checks import C16
+
+    class OldBaseParents(C16.MixedImports):
+        """An OID parent imported from RFC1213-MIB / RFC1158-MIB next to a symbol that moved to an SMIv2 module: the set compiles
+        and the node below the parent gets the OID the texts define (that of the transliteration, each symbol from its home)."""
+        prefix = 'C01'
+        name = 'K-parents-from-the-old-base-modules'
+    return OldBaseParents()
+
+
+FAMILIES = [_parents_from_the_old_base_modules(), Shapes(), Spellings(), Kinds(), SameNames(), ArcZero(), TableOrders(), ArcValues(), NoDepsChains(), AfterFailures(), FileEdges()]
